@@ -95,8 +95,9 @@ class AsyncRequest {
    * no underlying data.
    **/
   OpResult getUpdate() {
+    RequestState state = kReady;
     DISPENSO_VERIF_POINT("ar.getUpdate.load", &state_);
-    if (state_.load(std::memory_order_acquire) == kReady) {
+    if (state_.compare_exchange_strong(state, kUpdating, std::memory_order_acq_rel)) {
       DISPENSO_VERIF_POINT("ar.getUpdate.move", &obj_);
       auto obj = std::move(obj_);
       DISPENSO_VERIF_POINT("ar.getUpdate.store", &state_);
